@@ -2,7 +2,7 @@
     Models: Model/C04_Gmod.v (DenseAdditive[Dominance]LinearGenomicModel, DenseLinearGenomicModel, rrBLUPModel0 predictions and
     statistics; TrueBreedingValue), Model/C04_GS.v (gauss_seidel and the non-numerical parts of rrBLUPModel0.fit_numpy). *)
 From Coq Require Import Permutation.
-From PV Require Import Lib.Common Model.C04_Gmod Model.C04_GS Proofs.C04_Counts Proofs.C04_Linear Proofs.C04_Var Proofs.C04_Sums Proofs.C04_Genic Proofs.C04_GS Proofs.C04_Ridge Proofs.C04_Check Proofs.C04_Scale.
+From PV Require Import Lib.Common Model.C04_Gmod Model.C04_GS Proofs.C04_Counts Proofs.C04_Linear Proofs.C04_Var Proofs.C04_Sums Proofs.C04_Genic Proofs.C04_GS Proofs.C04_Ridge Proofs.C04_Check Proofs.C04_Scale Gen.C04_Kernel Proofs.C04_Kernel.
 Local Open Scope Q_scope.
 
 (** ** predictions are linear and label-preserving *)
@@ -419,4 +419,197 @@ Proof.
   split; [reflexivity|]. split.
   - split; [reflexivity|]. intros [|[|j]] Hj; cbn in *; try lia; reflexivity.
   - eexists; eexists; eexists. split; [vm_compute; reflexivity|]. split; vm_compute; reflexivity.
+Qed.
+
+(** ** the kernel expressions of the CURRENT source
+    Gen/C04_Kernel.v is regenerated from /repo by harness/translate/c04_kernel.py on every run (one definition per expression, the
+    source statement quoted above each).  The theorems below are about those generated definitions: a changed sign test, count
+    method, quotient, zero test, block order, loop guard or coordinate update makes this file fail to build. *)
+
+(** the allele-statistic tables of the model ARE the generated expressions of the class, mapped over (effect, allele count) *)
+Theorem C04_kernel_allele_tables : forall g gt,
+  facount g gt = ktab g gt (fun u c pl n => kfa_A u c (k_A_maxfav pl n)) (fun u c pl n => kfa_L u c (k_L_maxfav pl n)) /\
+  dacount g gt = ktab g gt (fun u c pl n => kda_A u c (k_A_da_maxfav pl n)) (fun u c pl n => kda_L u c (k_L_da_maxfav pl n)) /\
+  faavail g gt = kflag g gt k_A_faavail k_L_faavail /\ daavail g gt = kflag g gt k_A_daavail k_L_daavail /\
+  fafixed g gt = kflag g gt k_A_fafixed k_L_fafixed /\ dafixed g gt = kflag g gt k_A_dafixed k_L_dafixed /\
+  fapoly g gt = kflag g gt k_A_fapoly k_A_fapoly /\ dapoly g gt = kflag g gt k_A_dapoly k_A_dapoly /\
+  nafixed g gt = ktab g gt k_A_nafixed k_A_nafixed /\ napoly g gt = ktab g gt k_A_napoly k_A_napoly /\
+  fafreq g gt = kfreq g gt k_A_fafreq k_L_fafreq /\ dafreq g gt = kfreq g gt k_A_dafreq k_L_dafreq.
+Proof.
+  intros. split; [apply facount_kernel|]. split; [apply dacount_kernel|]. split; [apply faavail_kernel|]. split; [apply daavail_kernel|].
+  split; [apply fafixed_kernel|]. split; [apply dafixed_kernel|]. split; [apply fapoly_kernel|]. split; [apply dapoly_kernel|].
+  split; [apply nafixed_kernel|]. split; [apply napoly_kernel|]. split; [apply fafreq_kernel | apply dafreq_kernel].
+Qed.
+Print Assumptions C04_kernel_allele_tables.
+
+(** counts by sign of the effect, for the generated where/reset expressions of both classes *)
+Theorem C04_kernel_counts_by_sign : forall (u : Q) (c N : Z),
+  ((0 < u) -> kfa_A u c N = c /\ kda_A u c N = (N - c)%Z /\ kfa_L u c N = c /\ kda_L u c N = (N - c)%Z) /\
+  ((u < 0) -> kfa_A u c N = (N - c)%Z /\ kda_A u c N = c /\ kfa_L u c N = (N - c)%Z /\ kda_L u c N = c) /\
+  ((u == 0) -> kfa_A u c N = 0%Z /\ kda_A u c N = 0%Z /\ kfa_L u c N = 0%Z /\ kda_L u c N = 0%Z) /\
+  (~ (u == 0) -> (kfa_A u c N + kda_A u c N)%Z = N /\ (kfa_L u c N + kda_L u c N)%Z = N).
+Proof. exact kernel_counts_by_sign. Qed.
+Print Assumptions C04_kernel_counts_by_sign.
+
+(** mutual consistency of the generated flag expressions on the generated counts *)
+Theorem C04_kernel_flags_consistent : forall (u : Q) (c pl n : Z), (0 <= c <= pl * n)%Z -> (0 < pl * n)%Z ->
+  let N := (pl * n)%Z in let fa := kfa_A u c (k_A_maxfav pl n) in let da := kda_A u c (k_A_da_maxfav pl n) in
+  (k_A_fafixed fa da pl n = true <-> fa = N) /\ (k_A_faavail fa da pl n = true <-> (0 < fa)%Z) /\
+  (k_A_dafixed fa da pl n = true <-> da = N) /\ (k_A_daavail fa da pl n = true <-> (0 < da)%Z) /\
+  k_A_fapoly fa da pl n = k_A_faavail fa da pl n && negb (k_A_fafixed fa da pl n) /\
+  k_A_dapoly fa da pl n = k_A_daavail fa da pl n && negb (k_A_dafixed fa da pl n) /\
+  (~ (u == 0) -> k_A_fafixed fa da pl n = negb (k_A_daavail fa da pl n) /\ k_A_dafixed fa da pl n = negb (k_A_faavail fa da pl n)
+                 /\ k_A_fapoly fa da pl n = k_A_dapoly fa da pl n) /\
+  ((u == 0) -> k_A_nafixed u c pl n = negb (k_A_napoly u c pl n) /\ k_A_faavail fa da pl n = false /\ k_A_daavail fa da pl n = false) /\
+  (~ (u == 0) -> k_A_nafixed u c pl n = false /\ k_A_napoly u c pl n = false).
+Proof. exact kernel_flags_consistent. Qed.
+Print Assumptions C04_kernel_flags_consistent.
+
+(** dominance design: in all four methods and both branches the generated indicator marks exactly the dosages strictly between 0
+    and the ploidy, a raw array without the keyword is read under the source's default, and the design is [dosage | indicators] *)
+Theorem C04_kernel_dominance_design : forall (ploidy a : Z) (m : zmat) g gt arg,
+  ((0 <= a <= ploidy)%Z ->
+     Forall (fun f : Z -> Z -> bool => f a ploidy = true <-> (0 < a < ploidy)%Z)
+       [k_AD_gegv_het_obj; k_AD_gegv_het_raw; k_AD_predict_het_obj; k_AD_predict_het_raw;
+        k_AD_score_het_obj; k_AD_score_het_raw; k_AD_var_G_het_obj; k_AD_var_G_het_raw]) /\
+  (eff_ploidy (GRaw m) None = k_AD_gegv_default_ploidy /\ eff_ploidy (GRaw m) None = k_AD_predict_default_ploidy /\
+   eff_ploidy (GRaw m) None = k_AD_score_default_ploidy /\ eff_ploidy (GRaw m) None = k_AD_var_G_default_ploidy /\
+   eff_ploidy (GRaw m) None = k_A_var_a_default_ploidy /\ eff_ploidy (GRaw m) None = k_A_bulmer_default_ploidy /\
+   eff_ploidy (GRaw m) None = k_L_var_a_default_ploidy /\ eff_ploidy (GRaw m) None = k_L_bulmer_default_ploidy) /\
+  (g_cls g = CAD ->
+     let A := dosage gt in let D := het gt arg in
+     design g gt arg = k_AD_gegv_design_obj zmat hcat A D /\ design g gt arg = k_AD_gegv_design_raw zmat hcat A D /\
+     design g gt arg = k_AD_predict_design_obj zmat hcat A D /\ design g gt arg = k_AD_predict_design_raw zmat hcat A D /\
+     design g gt arg = k_AD_score_design_obj zmat hcat A D /\ design g gt arg = k_AD_score_design_raw zmat hcat A D /\
+     design g gt arg = k_AD_var_G_design_obj zmat hcat A D /\ design g gt arg = k_AD_var_G_design_raw zmat hcat A D).
+Proof. intros. split; [apply kernel_het_spec|]. split; [apply k_default_ploidy_model | apply k_design_model]. Qed.
+Print Assumptions C04_kernel_dominance_design.
+
+(** predictions: once the shape checks pass, gebv_numpy / gegv_numpy / predict_numpy return the class's own generated product
+    (which effects, which order), score_numpy scores that same prediction, and the effect blocks are concatenated in the
+    source's order *)
+Theorem C04_kernel_predictions : forall g (Z : zmat) (X Zq : qmat),
+  gebv_numpy g Z = (if ncols_ok (length (bv_effects g)) Z then Some (k_gebv_value g Z) else None) /\
+  (g_cls g = CAD -> gegv_numpy g Z = if ncols_ok (length (gv_effects g)) Z
+     then Some (k_AD_gegv_numpy qmat (matmul (g_t g)) (qz Z) (k_AD_gv_effects qmat (@app _) (g_umisc g) (g_ua g) (g_ud g))) else None) /\
+  predict_numpy g X Zq = (if ncols_ok (nexplan_beta g) X && Nat.eqb (length Zq) (length X) && ncols_ok (nexplan_u g) Zq
+                          then Some (k_predict_value g X Zq) else None) /\
+  k_score_pred_value g X Zq = k_predict_value g X Zq /\
+  g_u g = k_AD_u qmat (@app _) (g_umisc g) (g_ua g) (g_ud g) /\ (g_ud g = [] -> g_u g = k_A_u qmat (@app _) (g_umisc g) (g_ua g)).
+Proof.
+  intros. split; [apply gebv_numpy_kernel|]. split; [apply gegv_numpy_kernel|]. split; [apply predict_numpy_kernel|].
+  split; [apply score_pred_kernel|]. split; [apply k_AD_u_model | apply k_A_u_model].
+Qed.
+Print Assumptions C04_kernel_predictions.
+
+(** the intercept through the generated X* entries (Xstar[0,0] = 1, Xstar[0,1:] = 1/nfixed, location = Xstar @ beta), every class *)
+Theorem C04_kernel_intercept : forall g k b0 rest, g_beta g = b0 :: rest -> rows_len (g_t g) (g_beta g) -> (k < g_t g)%nat ->
+  let n := inject_Z (Z.of_nat (S (length rest))) in
+  nth k (location g) 0 == k_A_xstar0 * nth k b0 0 + k_A_xstar_rest n * sumQ (col 0 k rest) /\
+  nth k (location g) 0 == k_AD_xstar0 * nth k b0 0 + k_AD_xstar_rest n * sumQ (col 0 k rest) /\
+  nth k (location g) 0 == k_L_xstar0 * nth k b0 0 + k_L_xstar_rest n * sumQ (col 0 k rest).
+Proof. exact kernel_intercept. Qed.
+Print Assumptions C04_kernel_intercept.
+
+(** coefficient of determination through the generated squared error, squared deviation and 1 - SSE/SST of each class *)
+Theorem C04_kernel_score : forall y yhat,
+  let r (sq : Q -> Q -> Q) (st : Q -> Q -> Q) (f : Q -> Q -> Q) :=
+    let sse := sumQ (map2 sq y yhat) in let sst := sumQ (map (fun v => st v (qmean y)) y) in
+    if Qeq_bool sst 0 then None else Some (f sse sst) in
+  rsq y yhat = r k_A_sqerr k_A_sst_term k_A_rsq /\ rsq y yhat = r k_AD_sqerr k_AD_sst_term k_AD_rsq /\ rsq y yhat = r k_L_sqerr k_L_sst_term k_L_rsq.
+Proof. exact rsq_kernel. Qed.
+Print Assumptions C04_kernel_score.
+
+(** genic variance: the source's formula ploidy ** 2 * sum_j (u_jk ** 2 * p_j * (1 - p_j)), and the raw-array allele frequency is the
+    QUOTIENT count / (ploidy * ntaxa) in var_a and bulmer of both classes (a rounded reciprocal was finding C04-bulmer-reciprocal) *)
+Theorem C04_kernel_var_a_definition : forall t (u : qmat) (fr : list Q) (ploidy : Z) k gt p,
+  (rows_len t u -> length fr = length u -> (k < t)%nat ->
+   nth k (var_a_of t u fr ploidy) 0 == k_A_var_a_scale (inject_Z ploidy) (bigsum (length u) (fun j => k_A_var_a_term (nth k (nth j u []) 0) (nth j fr 0))) /\
+   nth k (var_a_of t u fr ploidy) 0 == k_L_var_a_scale (inject_Z ploidy) (bigsum (length u) (fun j => k_L_var_a_term (nth k (nth j u []) 0) (nth j fr 0)))) /\
+  (let frq (f : Q -> Q -> Q -> Q) := map (fun c => f (inject_Z c) (inject_Z ploidy) (inject_Z (gt_ntaxa gt))) (acount gt p) in
+   afreq gt p ploidy = frq k_A_var_a_afreq_raw /\ afreq gt p ploidy = frq k_A_bulmer_afreq_raw /\
+   afreq gt p ploidy = frq k_L_var_a_afreq_raw /\ afreq gt p ploidy = frq k_L_bulmer_afreq_raw).
+Proof. intros. split; [apply kernel_var_a_entry | apply afreq_raw_kernel]. Qed.
+Print Assumptions C04_kernel_var_a_definition.
+
+(** Bulmer ratio: the generated zero test of the genic variance is the exact one (true iff var_a == 0), an entry is NaN exactly
+    there and the generated quotient var_A / var_a elsewhere *)
+Theorem C04_kernel_bulmer_definition : forall g gt arg l vA k, var_A g gt = Some vA -> bulmer g gt arg = Some l ->
+  (k < length vA)%nat -> (k < length (var_a g gt arg))%nat ->
+  let s := nth k (var_a g gt arg) 0 in
+  (k_A_bulmer_mask s = true <-> s == 0) /\ (k_L_bulmer_mask s = true <-> s == 0) /\
+  nth k l None = (if k_A_bulmer_mask s then None else Some (k_A_bulmer_ratio (nth k vA 0) s)) /\
+  nth k l None = (if k_L_bulmer_mask s then None else Some (k_L_bulmer_ratio (nth k vA 0) s)).
+Proof. exact kernel_bulmer_entry. Qed.
+Print Assumptions C04_kernel_bulmer_definition.
+
+(** gauss_seidel: the model's coordinate update, movement test, initial test (adiff = 2 * atol) and loop guard are the generated
+    ones: with [fuel] sweeps left out of [maxiter] the loop continues iff  moved and niter < maxiter  for niter = maxiter - fuel *)
+Theorem C04_kernel_gauss_seidel : forall A b atol (maxiter fuel : nat) go x i r bi,
+  gs_coord i r bi x = Qred (k_gs_coord bi (dotQ (firstn i r) (firstn i x)) (dotQ (skipn (S i) r) (skipn (S i) x)) (nth i r 0)) /\
+  any_gt atol x = existsb (fun v => k_gs_moved v atol) x /\
+  gauss_seidel A b atol maxiter =
+    (if k_gs_moved (k_gs_adiff0 atol) atol && negb (Nat.eqb maxiter 0)
+     then (if diag_ok A then Some (gs_loop maxiter A b atol true (repeat 0 (length b))) else None)
+     else Some (repeat 0 (length b))) /\
+  ((fuel <= maxiter)%nat ->
+   gs_loop fuel A b atol go x =
+   if k_gs_guard go (Z.of_nat (maxiter - fuel)) (Z.of_nat maxiter)
+   then (let x' := gs_sweep A b x in gs_loop (pred fuel) A b atol (any_gt atol (adiff x' x)) x') else x).
+Proof. intros. split; [apply gs_coord_kernel|]. split; [apply any_gt_kernel|]. split; [apply gauss_seidel_kernel | apply gs_loop_guard]. Qed.
+Print Assumptions C04_kernel_gauss_seidel.
+
+(** the fitted model through the generated expressions: the intercept is the training mean, and a marker whose generated column
+    test (not all taxa equal to the first) is false gets exactly the generated constant, which is 0 *)
+Theorem C04_kernel_rr_structure : forall p r0 Z' y ridge atol maxiter beta u, rr_fit1 p (r0 :: Z') y ridge atol maxiter = Some (beta, u) ->
+  beta = qmean y /\ length u = p /\
+  (forall j, (j < p)%nat -> k_poly_col (forallb (fun r => k_poly_eq (nth j r 0%Z) (nth j r0 0%Z)) (r0 :: Z')) = false -> nth j u k_mono_effect = k_mono_effect) /\
+  k_mono_effect == 0 /\ sumQ (map (fun v => k_center v (qmean y)) y) == sumQ (center y).
+Proof. exact kernel_rr_structure. Qed.
+Print Assumptions C04_kernel_rr_structure.
+
+(** the ridge parameter of the penalised criterion is the source's quotient varE / varU of the variance components, positive
+    whenever they are (they are exponentials of the optimiser's result): the hypothesis [0 < ridge] of C04_rr_never_worse_than_zero
+    and C04_rr_normal_equations_partial *)
+Theorem C04_kernel_ridge : forall varE varU, k_ridge varE varU = varE / varU /\ (0 < varE -> 0 < varU -> 0 < k_ridge varE varU).
+Proof. intros. split; [apply k_ridge_model | apply kernel_ridge_positive]. Qed.
+Print Assumptions C04_kernel_ridge.
+
+(** ** scale covariance of the values themselves, and sessions *)
+
+(** if trait k of a second model has c times the effects of trait k of the first, its column of Z u is c times the first's, for
+    every c (2^-40 and 2^20 included) and every dosage matrix *)
+Theorem C04_gebv_scale_covariant : forall g g' Z v v' k c, rows_len (g_t g) (bv_effects g) -> rows_len (g_t g') (bv_effects g') -> g_t g' = g_t g ->
+  (k < g_t g)%nat -> col_scaled k c (bv_effects g') (bv_effects g) ->
+  gebv_numpy g Z = Some v -> gebv_numpy g' Z = Some v' ->
+  qeql (col 0 k v') (map (Qmult c) (col 0 k v)).
+Proof. exact gebv_col_scaled. Qed.
+Print Assumptions C04_gebv_scale_covariant.
+
+(** a model object is its current coefficient arrays: whatever is observed ([obs]: any method, on any input) after a history of
+    assignments through the setters depends on the last value written to each field only, independent fields commute, a copy
+    answers like the original and can be updated without reference to it, and writing every field back gives the same object *)
+Theorem C04_session_state_only : forall (A : Type) (obs : gmodel -> A) g (a b c : qmat),
+  obs (set_ua (set_ua g a) b) = obs (set_ua g b) /\ obs (set_beta (set_beta g a) b) = obs (set_beta g b) /\
+  obs (set_umisc (set_umisc g a) b) = obs (set_umisc g b) /\ obs (set_ud (set_ud g a) b) = obs (set_ud g b) /\
+  obs (set_beta (set_ua g a) c) = obs (set_ua (set_beta g c) a) /\ obs (set_ud (set_umisc g a) c) = obs (set_umisc (set_ud g c) a) /\
+  obs (model_copy g) = obs g /\ obs (set_ua (model_copy g) a) = obs (set_ua g a) /\
+  (set_ua (set_beta (set_umisc (set_ud g (g_ud g)) (g_umisc g)) (g_beta g)) (g_ua g) = g).
+Proof. intros. apply session_state_only. Qed.
+Print Assumptions C04_session_state_only.
+
+(** non-vacuity of the hypotheses of the kernel theorems *)
+Example C04_kernel_hyps_satisfiable :
+  let g := build CAD [[1; 2]; [3; 4]] None [[1; 0]; [-1; 2]] (Some [[0; 1]; [1; 0]]) 2 in
+  let gt := GUnphased 4 [[0; 1]; [3; 4]; [2; 2]]%Z in
+  (0 <= 3 <= 4 * 3)%Z /\ (0 < 4 * 3)%Z /\ (0 <= 2 <= 4)%Z /\ g_cls g = CAD /\ rows_len (g_t g) (g_beta g) /\
+  k_AD_gegv_het_obj 2 4 = true /\ k_AD_gegv_het_obj 4 4 = false /\
+  (exists vA l, var_A g gt = Some vA /\ bulmer g gt None = Some l /\ (1 < length vA)%nat /\ (1 < length (var_a g gt None))%nat) /\
+  (exists beta u, rr_fit1 2 ([0; 1] :: [[1; 1]; [2; 1]; [1; 1]])%Z [1; 2; 4; 2] (1 # 2) (1 # 100) 50 = Some (beta, u)) /\
+  (3 <= 5)%nat /\ 0 < (1 # 3) /\ 0 < k_ridge (1 # 3) (2 # 5).
+Proof.
+  cbv zeta. split; [lia|]. split; [lia|]. split; [lia|]. split; [reflexivity|].
+  split; [cbn; repeat constructor|]. split; [reflexivity|]. split; [reflexivity|].
+  split; [eexists; eexists; split; [vm_compute; reflexivity|]; split; [vm_compute; reflexivity|]; cbn; lia|].
+  split; [eexists; eexists; vm_compute; reflexivity |]. split; [lia|]. split; reflexivity.
 Qed.
